@@ -1,6 +1,221 @@
-(* C28 stub *)
+(* C28 - event listeners fire exactly as registered.
+
+   Sequential part (Events.v): [run init ops] is the model of sqlalchemy.event executing the
+   operation sequence [ops] (class / instance creation, listen with insert/propagate/once/wrapper
+   options, remove, contains, dispatch); [srun sinit ops] is the registration-log specification;
+   both return the list of results (the calls made by every dispatch, the result of every remove and
+   contains).  [guard sinit ops = true] restricts the sequences to single-inheritance hierarchies in
+   which a class-level listen() neither repeats a live (class, fn) pair nor registers an unwrapped
+   function that is live on an ancestor or descendant class; each excluded region has a refutation.
+
+   Concurrent part (ExecOnce.v): [xreach (s, ts)] = some schedule of some number of threads calling
+   exec_once / exec_once_unless_exception / _exec_w_sync_on_first_run leads to the state (s, ts). *)
 From Coq Require Import List Arith Bool.
 Import ListNotations.
-From SAV.event Require Import Events ExecOnce.
-Example c28_stub : fst (step init (NewClass [] [])) = fst (step init (NewClass [] [])).
-Proof. reflexivity. Qed.
+From SAV.event Require Import Events EventsProofs EventsTheorems ExecOnce ExecOnceProofs.
+
+(* ------------------------------------------------------------------ every sequence in the guarded region *)
+Theorem c28_dispatch_calls_exactly_registered_guarded : forall ops, guard sinit ops = true ->
+  snd (run init ops) = snd (srun sinit ops).
+Proof. exact dispatch_calls_exactly_registered_guarded. Qed.
+Print Assumptions c28_dispatch_calls_exactly_registered_guarded.
+
+(* the same, as "calls (dispatch target) = spec_calls log target" in every reachable state *)
+Theorem c28_dispatch_is_spec_calls_guarded : forall ops i, guard sinit ops = true ->
+  i < length (insts (fst (run init ops))) ->
+  snd (step (fst (run init ops)) (Dispatch i)) = OCalls (spec_calls (fst (srun sinit ops)) i).
+Proof. exact dispatch_is_spec_calls. Qed.
+Print Assumptions c28_dispatch_is_spec_calls_guarded.
+
+(* no ValueError, no fuel exhaustion, no dangling registry entry in the guarded region *)
+Theorem c28_no_internal_error_guarded : forall ops, guard sinit ops = true ->
+  existsb internal_error (snd (run init ops)) = false.
+Proof. exact guarded_no_internal_error. Qed.
+Print Assumptions c28_no_internal_error_guarded.
+
+(* the fuel of walk_subclasses is sufficient in every state whatsoever *)
+Theorem c28_walk_fuel_sufficient : forall st o, snd (step st o) <> OFuel.
+Proof. exact fuel_sufficient. Qed.
+Print Assumptions c28_walk_fuel_sufficient.
+
+(* remove() undoes listen(): afterwards the pair is not registered and every dispatch calls what it
+   called before the listen() *)
+Theorem c28_remove_is_inverse_guarded : forall ops t f fl,
+  let st := fst (run init ops) in
+  guard sinit (ops ++ [Listen t f fl; Remove t f]) = true ->
+  valid_target (length (classes st)) (length (insts st)) t = true ->
+  snd (step st (Contains t f)) = OBool false ->
+  let st1 := fst (step st (Listen t f fl)) in
+  let st2 := fst (step st1 (Remove t f)) in
+  snd (step st1 (Remove t f)) = OOk /\
+  snd (step st2 (Contains t f)) = OBool false /\
+  forall i, snd (step st2 (Dispatch i)) = snd (step st (Dispatch i)).
+Proof. exact remove_is_inverse. Qed.
+Print Assumptions c28_remove_is_inverse_guarded.
+
+(* a subclass created after the registrations: its first instance is called with exactly the
+   class-level registrations of the base and its ancestors, in the order a fresh instance of the
+   base itself is called with *)
+Theorem c28_later_subclass_inherits_guarded : forall ops b,
+  let st := fst (run init ops) in
+  let sp := fst (srun sinit ops) in
+  guard sinit ops = true -> b < length (classes st) ->
+  let d := length (classes st) in
+  let j := length (insts st) in
+  snd (run st [NewClass [b] (b :: EventsWalk.mro (classes st) b); NewInst d; Dispatch j])
+    = [OOk; OOk; OCalls (class_calls sp b)] /\
+  snd (run st [NewInst b; Dispatch j]) = [OOk; OCalls (class_calls sp b)].
+Proof. exact later_subclass_inherits. Qed.
+Print Assumptions c28_later_subclass_inherits_guarded.
+
+(* propagate=True changes nothing in the modelled operations (it only feeds _Dispatch._update) *)
+Theorem c28_propagate_inert : forall st t f fl b,
+  step st (Listen t f {| fl_insert := fl_insert fl; fl_prop := b; fl_once := fl_once fl; fl_wrap := fl_wrap fl |})
+  = step st (Listen t f fl).
+Proof. exact propagate_inert. Qed.
+Print Assumptions c28_propagate_inert.
+
+(* ------------------------------------------------------------------ refutations outside the guard *)
+Definition c28_fl : flags := {| fl_insert := false; fl_prop := false; fl_once := false; fl_wrap := false |}.
+Definition c28_fl_ins : flags := {| fl_insert := true; fl_prop := false; fl_once := false; fl_wrap := false |}.
+(* class 0 = A, 1 = B(A), 2 = C(A), 3 = D(B, C); functions 0 = fc, 1 = fb, 2 = fa, 3 = fb2 *)
+Definition c28_abc : list op := [NewClass [] []; NewClass [0] [0]; NewClass [0] [0]].
+Definition c28_regs : list op :=
+  [Listen (TCls 2) 0 c28_fl; Listen (TCls 1) 1 c28_fl; Listen (TCls 0) 2 c28_fl; Listen (TCls 1) 3 c28_fl_ins].
+Definition c28_mkD : op := NewClass [1; 2] [1; 2; 0].
+Definition c28_late : list op := c28_abc ++ c28_regs ++ [c28_mkD; NewInst 3; Dispatch 0].
+Definition c28_early : list op := c28_abc ++ [c28_mkD] ++ c28_regs ++ [NewInst 3; Dispatch 0].
+
+(* (g1) a subclass with two listening bases: created after the registrations it is called in MRO-merge
+   order [fb2, fb, fa, fc]; created before them in registration order [fb2, fc, fb, fa] *)
+Theorem c28_late_diamond_order_refuted :
+  last (snd (run init c28_late)) OOk = OCalls [3; 1; 2; 0] /\
+  last (snd (srun sinit c28_late)) OOk = OCalls [3; 0; 1; 2] /\
+  last (snd (run init c28_early)) OOk = OCalls [3; 0; 1; 2] /\
+  snd (run init c28_early) = snd (srun sinit c28_early).
+Proof. vm_compute. repeat split; reflexivity. Qed.
+Print Assumptions c28_late_diamond_order_refuted.
+
+(* (g1) the same function on both bases is de-duplicated for the late subclass, and the second
+   remove() raises ValueError *)
+Definition c28_late_dedup : list op :=
+  c28_abc ++ [Listen (TCls 1) 0 c28_fl; Listen (TCls 2) 0 c28_fl; c28_mkD; NewInst 3; Dispatch 0;
+              Remove (TCls 1) 0; Remove (TCls 2) 0].
+Theorem c28_late_diamond_remove_raises_refuted :
+  skipn 7 (snd (run init c28_late_dedup)) = [OCalls [0]; OOk; OValueError] /\
+  skipn 7 (snd (srun sinit c28_late_dedup)) = [OCalls [0; 0]; OOk; OOk].
+Proof. vm_compute. split; reflexivity. Qed.
+Print Assumptions c28_late_diamond_remove_raises_refuted.
+
+(* (g2) listen() twice for the same (class, fn): called twice; after one remove() a copy stays that
+   contains() does not know and remove() cannot reach *)
+Definition c28_double : list op :=
+  [NewClass [] []; Listen (TCls 0) 0 c28_fl; Listen (TCls 0) 0 c28_fl; NewInst 0; Dispatch 0;
+   Remove (TCls 0) 0; Contains (TCls 0) 0; Dispatch 0; Remove (TCls 0) 0].
+Theorem c28_class_double_listen_refuted :
+  skipn 4 (snd (run init c28_double)) = [OCalls [0; 0]; OOk; OBool false; OCalls [0]; OInvalidRequest] /\
+  skipn 4 (snd (srun sinit c28_double)) = [OCalls [0]; OOk; OBool false; OCalls []; OInvalidRequest].
+Proof. vm_compute. split; reflexivity. Qed.
+Print Assumptions c28_class_double_listen_refuted.
+
+(* (g3) f on the base, g on the subclass, f on the subclass; remove(subclass, f) deletes the FIRST f of
+   the subclass's deque: the surviving call of f moves behind g *)
+Definition c28_shared : list op :=
+  [NewClass [] []; NewClass [0] [0]; Listen (TCls 0) 0 c28_fl; Listen (TCls 1) 1 c28_fl;
+   Listen (TCls 1) 0 c28_fl; Remove (TCls 1) 0; NewInst 1; Dispatch 0].
+Theorem c28_remove_shared_fn_order_refuted :
+  last (snd (run init c28_shared)) OOk = OCalls [1; 0] /\
+  last (snd (srun sinit c28_shared)) OOk = OCalls [0; 1].
+Proof. vm_compute. split; reflexivity. Qed.
+Print Assumptions c28_remove_shared_fn_order_refuted.
+
+(* each witness leaves the guard, and only through the clause named *)
+Example c28_witnesses_outside_guard :
+  guard sinit c28_late = false /\ guard sinit c28_late_dedup = false /\
+  guard sinit c28_double = false /\ guard sinit c28_shared = false /\
+  guard sinit (c28_abc ++ c28_regs) = true.
+Proof. vm_compute. repeat split; reflexivity. Qed.
+
+(* non-vacuity: a guarded sequence with once, wrapper, insert, instance-level listeners, a dispatch
+   between, removal and a late subclass; the results of the model *)
+Definition c28_once : flags := {| fl_insert := false; fl_prop := false; fl_once := true; fl_wrap := false |}.
+Definition c28_wrap_ins : flags := {| fl_insert := true; fl_prop := true; fl_once := false; fl_wrap := true |}.
+Definition c28_example : list op :=
+  [NewClass [] []; NewClass [0] [0]; NewInst 1;
+   Listen (TInst 0) 0 c28_fl; Listen (TCls 0) 1 c28_once; Listen (TCls 1) 2 c28_wrap_ins;
+   Listen (TInst 0) 0 c28_fl_ins; Listen (TCls 1) 0 c28_fl; Dispatch 0; Dispatch 0;
+   Remove (TCls 0) 1; Remove (TCls 0) 1; NewClass [1] [1; 0]; NewInst 2; Dispatch 1; Contains (TCls 1) 2].
+Example c28_example_guarded :
+  guard sinit c28_example = true /\
+  snd (run init c28_example) =
+    [OOk; OOk; OOk; OOk; OOk; OOk; OOk; OOk; OCalls [2; 1; 0; 0]; OCalls [2; 0; 0];
+     OOk; OInvalidRequest; OOk; OOk; OCalls [2; 0]; OBool true].
+Proof. vm_compute. split; reflexivity. Qed.
+Example c28_remove_is_inverse_example :
+  guard sinit ([NewClass [] []; NewInst 0; Listen (TCls 0) 1 c28_fl] ++ [Listen (TCls 0) 0 c28_fl_ins; Remove (TCls 0) 0]) = true.
+Proof. vm_compute. reflexivity. Qed.
+
+(* ------------------------------------------------------------------ exec_once under every schedule *)
+(* the listeners run at most once through exec_once / exec_once_unless_exception: at most one run ends
+   by setting _exec_once (a success, or a failure under exec_once); every other run is a failed
+   exec_once_unless_exception run *)
+Theorem c28_exec_once_at_most_once : forall s ts, xreach (s, ts) ->
+  n_succ s + n_fail_o s <= 1 /\ n_run s <= 1 + n_fail_u s.
+Proof. exact exec_once_at_most_once. Qed.
+Print Assumptions c28_exec_once_at_most_once.
+
+(* exactly once if no listener raised: all threads idle, at least one call completed *)
+Theorem c28_exec_once_exactly_once : forall s ts, xreach (s, ts) -> quiescent ts -> n_done s >= 1 ->
+  n_run s >= 1 /\ (n_fail_o s = 0 -> n_fail_u s = 0 -> n_run s = 1).
+Proof. exact exec_once_exactly_once. Qed.
+Print Assumptions c28_exec_once_exactly_once.
+
+(* once the flag is set the listeners never run again through these entry points *)
+Theorem c28_no_run_after_flag : forall tr s ts s' ts', xreach (s, ts) -> f_once s = true ->
+  xrun (s, ts) tr = Some (s', ts') -> n_run s' = n_run s.
+Proof. exact no_run_after_flag. Qed.
+Print Assumptions c28_no_run_after_flag.
+
+(* runs under the mutex never overlap *)
+Theorem c28_mutex_exclusive : forall s ts, xreach (s, ts) -> forall i j p q,
+  nth_error ts i = Some p -> nth_error ts j = Some q -> holds p = true -> holds q = true -> i = j.
+Proof. exact mutex_exclusive. Qed.
+Print Assumptions c28_mutex_exclusive.
+
+(* _exec_w_sync_on_first_run: until one run has succeeded no two threads are inside the listeners *)
+Theorem c28_sync_first_run_exclusive : forall s ts, xreach (s, ts) -> f_sync s = false -> forall i j p q,
+  nth_error ts i = Some p -> nth_error ts j = Some q -> inside p = true -> inside q = true -> i = j.
+Proof. exact sync_first_run_exclusive. Qed.
+Print Assumptions c28_sync_first_run_exclusive.
+
+(* the retry rule: an exception under exec_once_unless_exception leaves the flag unset and the next
+   call runs the listeners again; an exception under exec_once sets the flag and the next call returns *)
+Theorem c28_unless_exception_retries : forall s ts i j,
+  nth_error ts i = Some Idle -> nth_error ts j = Some Idle -> mutex s = None -> f_once s = false ->
+  exists s' ts',
+    xrun (s, ts) ([ECall i KUnless; ERead i false false; ELock i; ERead i false false; EBegin i; EEnd i true; EUnlock i]
+                  ++ [ECall j KUnless; ERead j false false; ELock j; ERead j false false; EBegin j]) = Some (s', ts')
+    /\ f_once s' = false /\ n_run s' = 2 + n_run s.
+Proof. exact unless_exception_retries. Qed.
+Print Assumptions c28_unless_exception_retries.
+
+Theorem c28_once_exception_no_retry : forall s ts i j k, is_sync k = false ->
+  nth_error ts i = Some Idle -> nth_error ts j = Some Idle -> mutex s = None -> f_once s = false ->
+  exists s' ts',
+    xrun (s, ts) ([ECall i KOnce; ERead i false false; ELock i; ERead i false false; EBegin i; EEnd i true; EWrite i; EUnlock i]
+                  ++ [ECall j k; ERead j false true]) = Some (s', ts')
+    /\ f_once s' = true /\ n_run s' = 1 + n_run s /\ nth_error ts' j = Some Idle.
+Proof. exact once_exception_no_retry. Qed.
+Print Assumptions c28_once_exception_no_retry.
+
+(* non-vacuity: two threads pass the unlocked check together; the second finds the flag set inside
+   the mutex and does not run the listeners *)
+Example c28_race_example :
+  exists s ts,
+    xrun (xinit 2) [ECall 0 KOnce; ECall 1 KOnce; ERead 0 false false; ERead 1 false false; ELock 1; ERead 1 false false;
+                    EBegin 1; EEnd 1 false; EWrite 1; EUnlock 1; ELock 0; ERead 0 false true; EUnlock 0] = Some (s, ts)
+    /\ quiescent ts /\ n_run s = 1 /\ n_done s = 2.
+Proof.
+  eexists. eexists. split; [vm_compute; reflexivity|]. split; [|split; reflexivity].
+  intros p Hp. cbn in Hp. destruct Hp as [<-|[<-|[]]]; reflexivity.
+Qed.
